@@ -1,4 +1,5 @@
 import MioModel.Lemmas.Net
+import MioModel.Lemmas.NodeOrder
 /-! # C03 — Connection lifecycle events follow one well-formed sequence per endpoint
 
 Model M5 (`MioModel/Net.lean`): every theorem is about all states reachable by any schedule of user
@@ -415,6 +416,46 @@ theorem is_ready_none_iff (s s1 : St) (id : Nat) (hf : Fresh s) (h1 : step s (.i
     have hmem : id ∉ s.live := by simpa [isLive] using hlive
     simp only [Option.some.injEq] at h1; subst h1
     simp [record, hmem]
+
+
+/-! ## Through the node's dispatch layer (for_each, for_each_async, enqueue)
+
+The node layer (model M4) numbers the processor's events in production order; `Mio.Node.netLog` is
+the list of numbers handed to the callback so far. Composing `reachable_oinv` (the callback sees the
+numbers `0 … k-1` in order, whatever the mode, the hand-over instant and the schedule) with
+`lifecycle_wellformed`: what the callback has seen is a prefix of the processor's log, and the
+lifecycle automaton is prefix-closed. -/
+
+theorem filterMap_range_getElem? {α} (l : List α) (k : Nat) :
+    (List.range k).filterMap (fun i => l[i]?) = l.take k := by
+  induction k with
+  | zero => simp
+  | succ k ih =>
+    rw [List.range_succ, List.filterMap_append, ih, List.take_add_one]
+    cases h : l[k]? <;> simp [List.filterMap_cons, h]
+
+/-- the events delivered by the node, as a list of processor events -/
+def delivered (log : List Ev) (n : Mio.Node.St) : List Ev :=
+  (Mio.Node.netLog n).filterMap (fun i => log[i]?)
+
+theorem delivered_is_prefix (log : List Ev) (mode : Mio.Node.Mode) (c : Nat) (n : Mio.Node.St)
+    (hn : Mio.Node.Reachable mode c n) : delivered log n = log.take (Mio.Node.netLog n).length := by
+  unfold delivered
+  have h := (Mio.Node.reachable_oinv mode c n hn).core.2.2.1
+  rw [h, filterMap_range_getElem?, List.length_range]
+
+/-- per-endpoint lifecycle as observed by the user's callback behind any of the three listener modes -/
+theorem lifecycle_wellformed_through_node (s : St) (h : Reachable s) (mode : Mio.Node.Mode) (c : Nat)
+    (n : Mio.Node.St) (hn : Mio.Node.Reachable mode c n) :
+    ∀ r ∈ s.regs, phaseOf r (delivered s.log n) ≠ .bad := by
+  intro r hr hbad
+  have hw := lifecycle_wellformed s h r hr
+  rw [delivered_is_prefix s.log mode c n hn] at hbad
+  apply hw
+  have hsplit : s.log = s.log.take (Mio.Node.netLog n).length ++ s.log.drop (Mio.Node.netLog n).length :=
+    (List.take_append_drop _ _).symm
+  unfold phaseOf proj at hbad ⊢
+  rw [hsplit, List.filter_append, List.foldl_append, hbad, foldl_bad]
 
 /-! Non-vacuity: listen, connect, the peer sends two chunks and closes — the projection on the
 connecting endpoint is `Connected(true) Message Message Disconnected`; an inbound connection whose
